@@ -459,6 +459,18 @@ fn c04(a: &Args) -> Report {
         t.depth = if thorough { 5 } else { 4 };
         specs.push(t);
     }
+    {
+        // a group of three with one member whose node buffer is off-loaded (a merge into it fails)
+        let mut t = specs[0].clone();
+        t.name = "C04/seq/group3-from-one-member-offloaded".into();
+        t.alphabet = vec![Op::w(0, 1), Op::w(2, 1), Op::Rot, Op::TryClose, Op::Offload { level: 1 }, Op::d(1, 2)];
+        t.prefix = vec![Op::w(1, 1), Op::Rot, Op::Offload { level: 1 }];
+        t.wcfg.group_size = 3;
+        t.wcfg.bloom = BloomCfg::Bits(70);
+        t.keys = vec![0, 1, 2];
+        t.depth = if thorough { 5 } else { 4 };
+        specs.push(t);
+    }
     // from a reopened storage: two closed blobs whose indexes and filters were read from their
     // index files, the third blob re-activated; 70-bit bloom filter
     let mut s = specs[0].clone();
@@ -840,8 +852,15 @@ fn c15(a: &Args) -> Report {
             ("TryClose|W|TryCreate", vec![vec![COp::M(Op::TryClose)], vec![COp::w(0, 10)], vec![COp::M(Op::TryCreate)]]),
             ("CloseBg|W|W", vec![vec![COp::M(Op::CloseBg)], vec![COp::w(0, 10)], vec![COp::w(1, 11)]]),
             ("TryClose;TryRestore|W", vec![vec![COp::M(Op::TryClose), COp::M(Op::TryRestore)], vec![COp::w(0, 10)]]),
+            // the write fills the blob (limit 2): the worker's switch races with the close
+            ("Wfull;TryClose", vec![vec![COp::w(0, 10), COp::M(Op::TryClose)]]),
+            ("Wfull|TryClose", vec![vec![COp::w(0, 10)], vec![COp::M(Op::TryClose)]]),
+            ("Wfull|CloseBg", vec![vec![COp::w(0, 10)], vec![COp::M(Op::CloseBg)]]),
         ] {
             let mut s = SchedSpec::new(&format!("C15/sched/{cname}/{mode:?}"), mode, vec![Op::w(0, 1)], clients);
+            if cname.starts_with("Wfull") {
+                s.wcfg.max_data_in_blob = 2;
+            }
             s.bound = if thorough { 3 } else { 2 };
             s.max_execs = if thorough { 40_000 } else { 3_000 };
             s.followup = vec![COp::w(1, 20), COp::M(Op::Rot), COp::w(0, 21)];
@@ -1405,6 +1424,9 @@ fn c14_victims() -> Vec<(&'static str, COp, Vec<Op>)> {
         ("W90K", COp::W { k: 0, ts: 10, size: 90 * 1024, meta: None }, vec![]),
         ("Dactive", COp::D { k: 0, ts: 10 }, vec![Op::w(0, 2)]),
         ("Dclosed", COp::D { k: 0, ts: 10 }, vec![Op::w(0, 2), Op::Rot]),
+        // versions in a closed blob and in the active one, the delete's timestamp ties with the
+        // active version: a delete applied to some blobs only shows
+        ("Dboth-tie", COp::D { k: 0, ts: 10 }, vec![Op::w(0, 2), Op::Rot, Op::w(0, 10)]),
         ("R", COp::R(0), vec![Op::w(0, 2), Op::Rot]),
         ("C", COp::C(0), vec![Op::w(0, 2)]),
         ("RA", COp::RA(0), vec![Op::w(0, 2), Op::Rot, Op::w(0, 3)]),
